@@ -115,3 +115,50 @@ Proof.
       - apply (R_drop_fs Rperm Rperm_refl Rperm_trans Rperm_ucmd Rperm_uch Rperm_utf); intros; apply Rperm_same; reflexivity. }
     exact (pm_fin _ _ P _ F5).
 Qed.
+
+(* ---------- containment: the other tasks are left exactly as they were ---------- *)
+Lemma nth_error_updd_other {A} (d : A) f : forall n l m, n <> m ->
+  nth_error (updd d n f l) m = nth_error l m \/ (nth_error l m = None /\ nth_error (updd d n f l) m = Some d).
+Proof.
+  induction n as [|n IH]; intros l m Hne.
+  - destruct m as [|m]; [congruence|]. destruct l as [|x xs]; left.
+    + change (updd d 0 f []) with [f d]. destruct m; reflexivity.
+    + change (updd d 0 f (x :: xs)) with (f x :: xs). reflexivity.
+  - destruct l as [|x xs].
+    + change (updd d (S n) f []) with (d :: updd d n f []). destruct m as [|m].
+      * right. split; reflexivity.
+      * change (nth_error (d :: updd d n f []) (S m)) with (nth_error (updd d n f []) m).
+        change (nth_error (@nil A) (S m)) with (@None A).
+        destruct (IH [] m ltac:(congruence)) as [E|(E1 & E2)].
+        -- left. rewrite E. destruct m; reflexivity.
+        -- right. split; [reflexivity | exact E2].
+    + change (updd d (S n) f (x :: xs)) with (x :: updd d n f xs). destruct m as [|m]; [left; reflexivity|].
+      change (nth_error (x :: updd d n f xs) (S m)) with (nth_error (updd d n f xs) m).
+      change (nth_error (x :: xs) (S m)) with (nth_error xs m). apply IH. congruence.
+Qed.
+Lemma slab_get_remove_other s s' cm : s <> s' -> slab_get s' (slab_remove s cm) = slab_get s' cm.
+Proof.
+  intros Hne. unfold slab_get, slab_remove, set_slab. destruct cm; simpl.
+  destruct (nth_error_updd_other (Vac 0) (fun _ : entry => Vac c_next) s c_ent s' Hne) as [E|(E1 & E2)]; [rewrite E; reflexivity|].
+  rewrite E1, E2. reflexivity.
+Qed.
+
+Theorem finish_task_contained : forall cid s t H,
+  let H' := finish_task cid s t H in
+  (forall s', s' <> s -> slab_get s' (gcmd cid H') = slab_get s' (gcmd cid H) \/ c_ent (gcmd cid H') = []) /\
+  (forall c', c' <> cid -> c_ent (gcmd c' H') = c_ent (gcmd c' H) \/ c_ent (gcmd c' H') = []).
+Proof.
+  intros cid s t H. unfold finish_task. cbv zeta.
+  set (H4 := ucmd cid (slab_remove s) H).
+  set (H5 := utf (t_uid t) (fun tf => mkTF true (tf_abort tf) (tf_alive tf) []) H4).
+  set (H6 := fold_left (fun Hh wk => wake (wfuel wk) wk Hh) (tf_joinw (gtf (t_uid t) H4)) H5).
+  assert (R : Rent H4 (kill_flag (t_uid t) (drop_fs (dfuel H6) (t_fs t) H6))).
+  { eapply Rent_trans; [|apply Rent_kill_flag]. eapply Rent_trans; [|apply (proj1 (Rent_drop _))].
+    apply (Rent_trans _ H5); [unfold H5; apply Rent_utf|]. apply (Rent_fold (fun Hh wk => wake (wfuel wk) wk Hh)). intros wk Hh. apply Rent_wake. }
+  split.
+  - intros s' Hne. destruct (R cid) as [E|E]; [left | right; exact E].
+    unfold slab_get at 1. rewrite E. unfold H4. rewrite gcmd_ucmd_same.
+    change (slab_get s' (slab_remove s (gcmd cid H)) = slab_get s' (gcmd cid H)). apply slab_get_remove_other. congruence.
+  - intros c' Hne. destruct (R c') as [E|E]; [left | right; exact E].
+    rewrite E. unfold H4. rewrite gcmd_ucmd_other by congruence. reflexivity.
+Qed.
